@@ -117,7 +117,6 @@ PICKS = [
  ("phase0.ProcessEffectiveBalanceUpdates", "effBalance + UPWARD_THRESHOLD < balance", "effective_balance + UPWARD_THRESHOLD < balance"),
  ("phase0.ProcessEth1Vote", "voteCount << 1 > period", "votes.count(eth1_data) * 2 > EPOCHS_PER_ETH1_VOTING_PERIOD * SLOTS_PER_EPOCH"),
  ("phase0.ProcessEth1Vote", "voteCount >= period", "the votes list holds at most EPOCHS_PER_ETH1_VOTING_PERIOD * SLOTS_PER_EPOCH entries (refuse when full)"),
- ("phase0.ProcessDeposits", "expectedInputCount > uint64(spec.MAX_DEPOSITS)", "min(MAX_DEPOSITS, deposit_count - deposit_index)"),
  ("phase0.ProcessDeposits", "inputCount != expectedInputCount", "len(body.deposits) == min(MAX_DEPOSITS, ...)"),
  ("phase0.ProcessDeposit", "uint64(valIndex) < valCount", "pubkey known to THIS state: index < len(state.validators)"),
  # ---- header / slots
@@ -140,7 +139,6 @@ PICKS = [
  # ---- sampling
  ("common.ComputeProposerIndex", "effectiveBalance * 0xff >= spec.MAX_EFFECTIVE_BALANCE * Gwei(randomByte)", "effective_balance * MAX_RANDOM_BYTE >= MAX_EFFECTIVE_BALANCE * random_byte"),
  ("common.ComputeSyncCommitteeIndices", "effectiveBalance * 0xff >= spec.MAX_EFFECTIVE_BALANCE * Gwei(randomByte)", "effective_balance * MAX_RANDOM_BYTE >= MAX_EFFECTIVE_BALANCE * random_byte"),
- ("common.CommitteeCount", "uint64(spec.MAX_COMMITTEES_PER_SLOT) < committeesPerSlot", "min(MAX_COMMITTEES_PER_SLOT, ...)"),
  # ---- attestation bit lengths (pool / gossip rely on these guards)
  ("phase0.AttestationBits.SingleParticipant", "bitLen != uint64(len(committee))", "len(aggregation_bits) == len(committee)"),
  ("phase0.AttestationBits.FilterParticipants", "bitLen != uint64(len(committee))", "len(aggregation_bits) == len(committee)"),
@@ -191,18 +189,9 @@ PICKS = [
  ("proto.ProtoArray.ApplyScoreChanges", "justifiedEpoch != pr.justifiedEpoch", "cached justified epoch refreshed when it differs"),
  ("proto.ProtoArray.ApplyScoreChanges", "finalizedEpoch != pr.finalizedEpoch", "cached finalized epoch refreshed when it differs"),
  # ---- bulk review of the transition functions (second pass)
- ("altair.ComputeEpochAttesterData", "out.PrevEpochUnslashedStake.SourceStake < spec.EFFECTIVE_BALANCE_INCREMENT", "get_total_balance: max(EFFECTIVE_BALANCE_INCREMENT, sum)"),
- ("altair.ComputeEpochAttesterData", "out.PrevEpochUnslashedStake.TargetStake < spec.EFFECTIVE_BALANCE_INCREMENT", "get_total_balance: max(EFFECTIVE_BALANCE_INCREMENT, sum)"),
- ("altair.ComputeEpochAttesterData", "out.PrevEpochUnslashedStake.HeadStake < spec.EFFECTIVE_BALANCE_INCREMENT", "get_total_balance: max(EFFECTIVE_BALANCE_INCREMENT, sum)"),
- ("altair.ComputeEpochAttesterData", "out.CurrEpochUnslashedTargetStake < spec.EFFECTIVE_BALANCE_INCREMENT", "get_total_balance: max(EFFECTIVE_BALANCE_INCREMENT, sum)"),
- ("phase0.ComputeEpochAttesterData", "out.PrevEpochUnslashedStake.SourceStake < spec.EFFECTIVE_BALANCE_INCREMENT", "get_total_balance: max(EFFECTIVE_BALANCE_INCREMENT, sum)"),
- ("phase0.ComputeEpochAttesterData", "out.PrevEpochUnslashedStake.TargetStake < spec.EFFECTIVE_BALANCE_INCREMENT", "get_total_balance: max(EFFECTIVE_BALANCE_INCREMENT, sum)"),
- ("phase0.ComputeEpochAttesterData", "out.PrevEpochUnslashedStake.HeadStake < spec.EFFECTIVE_BALANCE_INCREMENT", "get_total_balance: max(EFFECTIVE_BALANCE_INCREMENT, sum)"),
- ("phase0.ComputeEpochAttesterData", "out.CurrEpochUnslashedTargetStake < spec.EFFECTIVE_BALANCE_INCREMENT", "get_total_balance: max(EFFECTIVE_BALANCE_INCREMENT, sum)"),
  ("phase0.ComputeEpochAttesterData", "status.InclusionDelay > att.InclusionDelay", "the attestation with the lowest inclusion_delay counts"),
  ("phase0.ComputeEpochAttesterData", "att.Data.Target.Root == actualTargetBlockRoot", "matching target: data.target.root == get_block_root(state, epoch)"),
  ("phase0.ComputeEpochAttesterData", "att.Data.BeaconBlockRoot == attBlockRoot", "matching head: data.beacon_block_root == get_block_root_at_slot(state, data.slot)"),
- ("altair.ComputeFlagDeltas", "unslashedParticipatingTotalBalance < spec.EFFECTIVE_BALANCE_INCREMENT", "get_total_balance: max(EFFECTIVE_BALANCE_INCREMENT, sum)"),
  ("altair.ComputeFlagDeltas", "flag != TIMELY_HEAD_FLAG", "non-participants are penalised for source and target, not for head"),
  ("altair.GetApplicableAttestationParticipationFlags", "data.Target.Epoch == currentEpoch", "justified checkpoint of the attestation's target epoch: current if target.epoch == current_epoch else previous"),
  ("altair.GetApplicableAttestationParticipationFlags", "data.Source == justifiedCheckpoint", "is_matching_source = data.source == justified_checkpoint"),
@@ -216,7 +205,6 @@ PICKS = [
  ("deneb.GetApplicableAttestationParticipationFlags", "inclusionDelay <= common.Slot(math.IntegerSquareroot(uint64(spec.SLOTS_PER_EPOCH)))", "as altair"),
  ("altair.ProcessInactivityUpdates", "attesterData.CurrEpoch == common.GENESIS_EPOCH", "process_inactivity_updates: skip the genesis epoch"),
  ("altair.ProcessInactivityUpdates", "newScore > 0", "score -= min(1, score)"),
- ("altair.ProcessInactivityUpdates", "newScore < uint64(spec.INACTIVITY_SCORE_RECOVERY_RATE)", "score -= min(INACTIVITY_SCORE_RECOVERY_RATE, score)"),
  ("bellatrix.ProcessExecutionPayload", "executionPayload.ParentHash != parent.BlockHash", "payload.parent_hash == state.latest_execution_payload_header.block_hash"),
  ("bellatrix.ProcessExecutionPayload", "executionPayload.PrevRandao != expectedMix", "payload.prev_randao == get_randao_mix(state, current_epoch)"),
  ("bellatrix.ProcessExecutionPayload", "executionPayload.Timestamp != expectedTime", "payload.timestamp == compute_timestamp_at_slot(state, state.slot)"),
@@ -236,9 +224,6 @@ PICKS = [
  ("phase0.InitiateValidatorExit", "exitEp != common.FAR_FUTURE_EPOCH", "initiate_validator_exit: return if validator.exit_epoch != FAR_FUTURE_EPOCH"),
  ("phase0.InitiateValidatorExit", "valExit == exitQueueEnd", "exit queue churn counts the validators exiting at the queue end"),
  ("phase0.InitiateValidatorExit", "valExit > exitQueueEnd", "exit queue end = max(exit epochs, compute_activation_exit_epoch(current))"),
- ("phase0.ProcessEffectiveBalanceUpdates", "spec.MAX_EFFECTIVE_BALANCE < effBalance", "effective_balance = min(balance - balance % INCREMENT, MAX_EFFECTIVE_BALANCE)"),
- ("phase0.ProcessEpochSlashings", "totalActiveStake < spec.EFFECTIVE_BALANCE_INCREMENT", "get_total_balance: max(EFFECTIVE_BALANCE_INCREMENT, sum)"),
- ("phase0.ProcessEpochSlashings", "totalActiveStake < slashingsWeight", "adjusted_total_slashing_balance = min(sum(slashings) * multiplier, total_balance)"),
  ("phase0.ProcessEpochSlashings", "slashingsEpoch == flat.WithdrawableEpoch", "validator.slashed and epoch + EPOCHS_PER_SLASHINGS_VECTOR // 2 == validator.withdrawable_epoch"),
  ("phase0.SlashValidator", "withdrawalEpoch > prevWithdrawalEpoch", "withdrawable_epoch = max(withdrawable_epoch, epoch + EPOCHS_PER_SLASHINGS_VECTOR)"),
  ("phase0.ValidateProposerSlashingNoSignature", "ps.SignedHeader1.Message == ps.SignedHeader2.Message", "header_1 != header_2"),
